@@ -13,6 +13,7 @@ import (
 	"bytes"
 	"fmt"
 	"io"
+	"io/ioutil"
 	"net/url"
 	"strings"
 	"unsafe"
@@ -40,7 +41,7 @@ func init() {
 }
 
 var c19nServerHooks = []string{"none", "onrequest", "onhost", "onheader", "onbefore", "protocol", "extension", "negotiate", "header"}
-var c19nClientHooks = []string{"none", "onheader", "header", "onstatuserror"}
+var c19nClientHooks = []string{"none", "onheader", "header", "onstatuserror", "afterreturn"}
 
 func c19Nested(c *ctx) {
 	for _, sel := range []string{"custom", "copy", "negotiate"} {
@@ -100,10 +101,11 @@ func c19nDial(tag, status string, hook func(string)) string {
 		},
 	}
 	br, hs, err := d.Upgrade(conn, u)
+	hook("afterreturn") // other sessions run between the return of Upgrade and the caller reading the early frames
 	var left []byte
 	if br != nil {
-		left = make([]byte, br.Buffered())
-		io.ReadFull(br, left)
+		// everything the server sent behind the response: through the returned reader up to the end of the stream
+		left, _ = ioutil.ReadAll(br)
 		ws.PutReader(br)
 	}
 	req := bytes.Replace(conn.in.Bytes(), conn.nonce, []byte("KEY"), 1)
